@@ -1,7 +1,34 @@
 (* Assembly.v — the pieces put together: the solver theorems of SolverProofs.v / SolverCutoff.v / ParProofs.v
    instantiated with the diagram contracts proved about Mdd.compile in MddProgress.v (K0, K1, K3_good, K3_depth, K5)
-   and MddSim.v (K2, K3_ub, K4).  What remains as premises only talks about the USER'S MODEL and the configuration. *)
-Require Import DDO.Base DDO.Fringe DDO.DP DDO.Cache DDO.Dom DDO.Mdd DDO.MddExact DDO.Solver DDO.SolverProofs.
+   and MddSim.v (K2, K3_ub, K4).  Every remaining premise talks about the USER'S MODEL and the configuration only:
+
+     st_eqb_spec                                        the state equality test decides equality
+     cfg_clean / cfg_nocache / cfg_nodom / cfg_nodup    CleanLEL or CleanFC diagrams, no cache, no dominance rule, SimpleFringe
+     cfg_width                                          1 <= sc_width cfg          (cfg_nocut: sc_cutoff cfg = 0 where stated)
+     nv_static / nv_some / nv_none                      static variable order
+     Hwf : wf_relaxation cfg                            there is a covering relation cov with cov_refl, cov_sim, merge_cov, rub_adm
+                                                        and EITHER relax_ge as in MddSim.v (for every integer cost)
+                                                        OR the machine-integer variant: transition costs and relaxed costs
+                                                        are isize and c <= relax .. c for isize c            (section 3c)
+     D, dom_bound                                       domains have at most D values
+     B, HB : 2 * B <= IMAX, guard0                      every feasible run FROM THE INITIAL STATE has a value in [-B, B]
+
+   Instantiation:  good := sgood pb (reached from the initial state by a feasible run whose decisions are the path),
+                   feasible := sfeasible pb (a complete feasible run, exact integer arithmetic),
+                   best := MddSim.best cfg = value + Bellman value,  OPT = opt_enum pb (OPT_is_opt_enum),  M := Kbound cfg D.
+   sgood / sfeasible imply MddProgress.good / MddProgress.feasible under the guard (sgood_good, sfeasible_feasible); the
+   replay_sat-based notions themselves are too weak to carry the guard or feasible_le_opt (section 10, a counterexample).
+
+   Sections: 0 runs vs saturating replays; 1 exact nodes are reached by feasible runs (clean_chain_frun); 1b a compilation
+   that is cut off did not crash (compile_nocrash_cut); 1c clipping a relaxation to machine integers compiles to the same
+   diagram (clip_compile); 2 semantics; 3a-3c simulation contracts in both senses; 3 the contracts for ANY cutoff
+   (contracts_hold, via SolverCutoff.compile_agree: a completed compilation is the compilation without cutoff) and the
+   semantics (semantics_hold); 4 C05_sequential_anytime; 4b C04 no deadlock / no crash; 5 K0..K5 (cutoff 0);
+   6 C01_sequential_optimal, C14_primal (+ _run variants and C01_solution_replays in exact arithmetic);
+   7 C03_parallel_optimal(_finished), C04_parallel_terminates; 8 C19_monotone(_gen), C19_eventually_full;
+   9 C01 with every premise spelled out (_explicit: MddSim's hypotheses verbatim; _isize: the machine-integer variant).
+   Stdlib only; no axioms (Print Assumptions at the end). *)
+Require Import DDO.Base DDO.Fringe DDO.DP DDO.Cache DDO.Dom DDO.Mdd DDO.MddStruct DDO.MddExact DDO.Solver DDO.SolverProofs.
 Require Import DDO.MddProgress DDO.MddSim DDO.SolverCutoff DDO.Par DDO.ParProofs.
 From Coq Require Import Lia List Arith ZArith Bool Permutation.
 Import ListNotations.
@@ -157,6 +184,254 @@ Section CutCrash.
   Qed.
 End CutCrash.
 
+(* ================================================================== 1c. clipping a relaxation to machine integers does not change the diagram
+   [clip_relaxation r] behaves like r on isize costs and is the identity on the (never occurring) others.  When the
+   transition costs and the relaxed costs of the model are machine integers, every arc of a diagram under compilation
+   carries an isize cost (Ecost), so compiling with r or with its clipped version yields the very same diagram. *)
+Section RelaxClip.
+  Context {St : Type}.
+  Variable st_eqb : St -> St -> bool.
+
+  Definition in_isize_b (z : Z) : bool := (IMIN <=? z) && (z <=? IMAX).
+  Lemma in_isize_b_true z : in_isize z -> in_isize_b z = true.
+  Proof. unfold in_isize, in_isize_b. intros [H1 H2]. apply andb_true_intro. split; apply Z.leb_le; assumption. Qed.
+
+  Definition clip_relaxation (r : relaxation St) : relaxation St :=
+    {| merge := merge r;
+       relax := fun src dst mg d c => if in_isize_b c then relax r src dst mg d c else c;
+       fast_upper_bound := fast_upper_bound r |}.
+
+  Definition set_relax (inp : @cinput St) (r : relaxation St) : @cinput St :=
+    {| ci_flavour := ci_flavour inp; ci_type := ci_type inp; ci_problem := ci_problem inp; ci_relax := r;
+       ci_ranking := ci_ranking inp; ci_domcmp := ci_domcmp inp; ci_width := ci_width inp; ci_root := ci_root inp;
+       ci_best_lb := ci_best_lb inp; ci_use_cache := ci_use_cache inp; ci_domrule := ci_domrule inp; ci_cutoff := ci_cutoff inp |}.
+
+  Variable inp : @cinput St.
+  Local Notation inp' := (set_relax inp (clip_relaxation (ci_relax inp))).
+
+  Ltac rnorm := cbv beta iota delta [
+    set_relax clip_relaxation merge fast_upper_bound
+    ci_flavour ci_type ci_problem ci_relax ci_ranking ci_domcmp ci_width ci_root ci_best_lb ci_use_cache ci_domrule ci_cutoff
+    get_node get_edge upd_node find_next branch_on cache_get cache_update dom_query
+    filter_with_cache dom_order dom_retain filter_with_dominance rank_order note_squash restrict_layer
+    expand_node initialize
+    finalize_layers argmax_candidates find_best_node has_exact_best_path finalize_exact frontier_cutset
+    finalize_cutset compute_local_bounds maybe_update_cache compute_thresholds default_node].
+
+  Lemma clip_filter_with_cache m l : filter_with_cache st_eqb inp' m l = filter_with_cache st_eqb inp m l.
+  Proof. rnorm. reflexivity. Qed.
+  Lemma clip_filter_with_dominance m l : filter_with_dominance inp' m l = filter_with_dominance inp m l.
+  Proof. rnorm. reflexivity. Qed.
+  Lemma clip_restrict_layer m l : restrict_layer inp' m l = restrict_layer inp m l.
+  Proof. rnorm. reflexivity. Qed.
+  Lemma clip_expand_node var m id : expand_node st_eqb inp' var m id = expand_node st_eqb inp var m id.
+  Proof. rnorm. reflexivity. Qed.
+  Lemma clip_initialize c ds p : initialize inp' c ds p = initialize inp c ds p.
+  Proof. reflexivity. Qed.
+  Lemma clip_finalize_layers m : finalize_layers inp' m = finalize_layers inp m.
+  Proof. rnorm. reflexivity. Qed.
+  Lemma clip_find_best_node a b m : find_best_node inp' a b m = find_best_node inp a b m.
+  Proof. rnorm. reflexivity. Qed.
+  Lemma clip_finalize_exact m : finalize_exact inp' m = finalize_exact inp m.
+  Proof. rnorm. reflexivity. Qed.
+  Lemma clip_finalize_cutset m : finalize_cutset inp' m = finalize_cutset inp m.
+  Proof. rnorm. reflexivity. Qed.
+  Lemma clip_compute_local_bounds m : compute_local_bounds inp' m = compute_local_bounds inp m.
+  Proof. rnorm. reflexivity. Qed.
+  Lemma clip_compute_thresholds m : compute_thresholds st_eqb inp' m = compute_thresholds st_eqb inp m.
+  Proof. rnorm. reflexivity. Qed.
+  Lemma clip_finalize tb tb2 m : finalize st_eqb inp' tb tb2 m = finalize st_eqb inp tb tb2 m.
+  Proof.
+    unfold finalize.
+    rewrite clip_finalize_layers, clip_find_best_node, clip_finalize_exact, clip_finalize_cutset,
+            clip_compute_local_bounds, clip_compute_thresholds. reflexivity.
+  Qed.
+
+  (* ---- the invariant: every arc of the diagram carries an isize cost *)
+  Local Notation pb := (ci_problem inp).
+  Local Notation rlx := (ci_relax inp).
+  Hypothesis Hclean : ci_flavour inp = CleanLEL \/ ci_flavour inp = CleanFC.
+  Hypothesis cost_isize : forall s d, in_isize (transition_cost pb s (transition pb s d) d).
+  Hypothesis relax_isize : forall src dst mg d c, in_isize c -> in_isize (relax rlx src dst mg d c).
+
+  Definition Ecost (m : @mdd St) : Prop := Forall (fun e => in_isize (e_cost e)) (m_edges m).
+
+  Lemma Ecost_same (m m' : @mdd St) : m_edges m' = m_edges m -> Ecost m -> Ecost m'.
+  Proof. unfold Ecost. intros ->. auto. Qed.
+
+  Lemma Ecost_get m eid : Ecost m -> in_isize (e_cost (get_edge m eid)).
+  Proof.
+    unfold Ecost, get_edge. intros H. destruct (nth_in_or_default eid (m_edges m) default_edge) as [Hin| ->].
+    - rewrite Forall_forall in H. apply H; exact Hin.
+    - simpl. unfold in_isize, IMIN, IMAX. lia.
+  Qed.
+
+  Lemma Ecost_append m e : Ecost m -> in_isize (e_cost e) -> Ecost (append_edge inp m e).
+  Proof. unfold Ecost. intros H He. cbn [append_edge m_edges]. apply Forall_app. split; [exact H|constructor; [exact He|constructor]]. Qed.
+
+  Lemma Ecost_fold {X} (f : @mdd St -> X -> @mdd St) (l : list X) :
+    (forall a x, Ecost a -> Ecost (f a x)) -> forall a, Ecost a -> Ecost (fold_left f l a).
+  Proof. intros Hf. induction l as [|x l IH]; intros a Ha; simpl; auto. Qed.
+
+  (* ---- redirect / relax *)
+  Lemma clip_redirect_step merged mid m eid : Ecost m ->
+    redirect_step inp' merged mid m eid = redirect_step inp merged mid m eid /\ Ecost (redirect_step inp merged mid m eid).
+  Proof.
+    intros HE. pose proof (Ecost_get m eid HE) as Hc. split.
+    - unfold redirect_step. cbn [set_relax clip_relaxation ci_relax relax].
+      rewrite (in_isize_b_true _ Hc). reflexivity.
+    - unfold redirect_step. apply Ecost_append; [exact HE|]. cbn [e_cost]. apply relax_isize. exact Hc.
+  Qed.
+
+  Lemma clip_redirect_fold merged mid L : forall a, Ecost a ->
+    fold_left (redirect_step inp' merged mid) L a = fold_left (redirect_step inp merged mid) L a /\ Ecost (fold_left (redirect_step inp merged mid) L a).
+  Proof.
+    induction L as [|eid L IH]; intros a Ha; simpl; [auto|].
+    destruct (clip_redirect_step merged mid a eid Ha) as [E1 E2]. rewrite E1. apply IH. exact E2.
+  Qed.
+
+  Lemma clip_drop_step merged mid m did : Ecost m ->
+    drop_step inp' merged mid m did = drop_step inp merged mid m did /\ Ecost (drop_step inp merged mid m did).
+  Proof.
+    intros HE. unfold drop_step. rewrite !redirect_edges_fold.
+    apply (clip_redirect_fold merged mid). exact HE.
+  Qed.
+
+  Lemma clip_drop_fold merged mid L : forall a, Ecost a ->
+    fold_left (drop_step inp' merged mid) L a = fold_left (drop_step inp merged mid) L a /\ Ecost (fold_left (drop_step inp merged mid) L a).
+  Proof.
+    induction L as [|did L IH]; intros a Ha; simpl; [auto|].
+    destruct (clip_drop_step merged mid a did Ha) as [E1 E2]. rewrite E1. apply IH. exact E2.
+  Qed.
+
+  Lemma Ecost_note_squash m : Ecost m -> Ecost (note_squash inp m).
+  Proof. intros HE. unfold note_squash. destruct (is_pooled _); [exact HE|]. destruct (m_lel m); exact HE. Qed.
+
+  Lemma clip_relax_layer m l : Ecost m ->
+    relax_layer st_eqb inp' m l = relax_layer st_eqb inp m l /\ Ecost (fst (relax_layer st_eqb inp m l)).
+  Proof.
+    intros HE. destruct (ci_width inp) as [|w1] eqn:Hw.
+    - unfold relax_layer. cbn [set_relax ci_width]. rewrite Hw. split; [reflexivity|]. cbn [fst]. exact (Ecost_note_squash m HE).
+    - rewrite (relax_layer_unfold st_eqb inp' m l w1 Hw), (relax_layer_unfold st_eqb inp m l w1 Hw). cbv zeta.
+      change (note_squash inp' m) with (note_squash inp m).
+      set (m0 := note_squash inp m).
+      change (rank_order inp' m0) with (rank_order inp m0).
+      set (sorted := sort_by (rank_order inp m0) l).
+      set (mrg := skipn w1 sorted).
+      change (map (fun id => n_state (get_node inp' m0 id)) mrg) with (map (fun id => n_state (get_node inp m0 id)) mrg).
+      set (mstates := map (fun id => n_state (get_node inp m0 id)) mrg).
+      change (merge (ci_relax inp') mstates) with (merge rlx mstates).
+      set (merged := merge rlx mstates).
+      set (m1 := add_log m0 (EvMerge mstates merged)).
+      change (find (fun id => st_eqb (n_state (get_node inp' m1 id)) merged) (firstn w1 sorted))
+        with (find (fun id => st_eqb (n_state (get_node inp m1 id)) merged) (firstn w1 sorted)).
+      assert (HE1 : Ecost m1) by exact (Ecost_note_squash m HE).
+      destruct (find (fun id => st_eqb (n_state (get_node inp m1 id)) merged) (firstn w1 sorted)) as [rid|].
+      + destruct (clip_drop_fold merged rid mrg (upd_node m1 rid set_relaxed_flag) HE1) as [E1 E2].
+        rewrite E1. split; [reflexivity|exact E2].
+      + change (get_node inp' m1 (hd 0%nat mrg)) with (get_node inp m1 (hd 0%nat mrg)).
+        set (m2 := upd_node (with_nodes m1 (m_nodes m1 ++ [merged_node merged (n_depth (get_node inp m1 (hd 0%nat mrg)))]))
+                     (length (m_nodes m1)) set_relaxed_flag).
+        destruct (clip_drop_fold merged (length (m_nodes m1)) mrg m2 HE1) as [E1 E2].
+        rewrite E1. split; [reflexivity|exact E2].
+  Qed.
+
+  Lemma Ecost_mark_deleted ids : forall m, Ecost m -> Ecost (mark_deleted m ids).
+  Proof. unfold mark_deleted. apply Ecost_fold. intros a x Ha. exact Ha. Qed.
+
+  Lemma clip_squash m l : Ecost m ->
+    squash_if_needed st_eqb inp' m l = squash_if_needed st_eqb inp m l /\
+    Ecost (fst (squash_if_needed st_eqb inp m l)).
+  Proof.
+    intros HE. unfold squash_if_needed. change (ci_type inp') with (ci_type inp). change (ci_width inp') with (ci_width inp).
+    destruct (ci_type inp).
+    - split; [reflexivity|exact HE].
+    - destruct (Nat.ltb (ci_width inp) (length l) && Nat.ltb 1 (length (m_layers m))).
+      + apply clip_relax_layer. exact HE.
+      + split; [reflexivity|exact HE].
+    - destruct (Nat.ltb (ci_width inp) (length l)).
+      + rewrite clip_restrict_layer. split; [reflexivity|].
+        unfold restrict_layer. cbn [fst]. apply Ecost_mark_deleted.
+        apply Ecost_note_squash. exact HE.
+      + split; [reflexivity|exact HE].
+  Qed.
+
+  Lemma clip_move m : Ecost m ->
+    move_to_next_layer_clean st_eqb inp' m = move_to_next_layer_clean st_eqb inp m /\
+    Ecost (fst (move_to_next_layer_clean st_eqb inp m)).
+  Proof.
+    intros HE. rewrite !move_clean_unfold. destruct (m_next m) as [|x nx] eqn:En.
+    - split; [reflexivity|exact HE].
+    - rewrite <- En. unfold prefilter. change (m_layers (with_next m [])) with (m_layers m).
+      rewrite clip_filter_with_cache.
+      set (pf := if Nat.ltb 0 (length (m_layers m)) then filter_with_cache st_eqb inp (with_next m []) (m_next m)
+                 else (with_next m [], m_next m)).
+      assert (HE1 : Ecost (fst pf)).
+      { unfold pf. destruct (Nat.ltb 0 (length (m_layers m))); [|exact HE].
+        destruct (filter_with_cache_ceq st_eqb inp Hclean (m_next m) (with_next m [])) as [((C & _) & _) _].
+        eapply Ecost_same; [exact C|exact HE]. }
+      destruct pf as [m1 l1]. cbn [fst] in HE1.
+      rewrite clip_filter_with_dominance.
+      assert (HE2 : Ecost (fst (filter_with_dominance inp m1 l1))).
+      { destruct (filter_with_dominance_ceq inp m1 l1) as [((C & _) & _) _]. eapply Ecost_same; [exact C|exact HE1]. }
+      destruct (filter_with_dominance inp m1 l1) as [m2 l2]. cbn [fst] in HE2.
+      destruct (clip_squash m2 l2 HE2) as [E1 E2]. rewrite E1.
+      destruct (squash_if_needed st_eqb inp m2 l2) as [m3 l3]. cbn [fst] in E2.
+      split; [reflexivity|exact E2].
+  Qed.
+
+  Lemma Ecost_branch_on m id d : Ecost m -> Ecost (branch_on st_eqb inp m id d).
+  Proof.
+    intros HE. unfold branch_on. cbv zeta.
+    match goal with |- context [find_next ?a ?b ?c ?d] => destruct (find_next a b c d) end.
+    - apply Ecost_append; [exact HE|]. cbn [e_cost]. apply cost_isize.
+    - unfold Ecost. cbn [with_next m_edges]. apply Ecost_append; [exact HE|]. cbn [e_cost]. apply cost_isize.
+  Qed.
+
+  Lemma Ecost_expand_node var m id : Ecost m -> Ecost (expand_node st_eqb inp var m id).
+  Proof.
+    intros HE. unfold expand_node. cbv zeta.
+    match goal with |- context [if ?c then _ else _] => destruct c end; [|exact HE].
+    apply Ecost_fold; [|exact HE]. intros a x Ha. apply Ecost_branch_on. exact Ha.
+  Qed.
+
+  Lemma clip_fold_expand var l : forall m,
+    fold_left (expand_node st_eqb inp' var) l m = fold_left (expand_node st_eqb inp var) l m.
+  Proof. induction l as [|id l IH]; intros m; simpl; [reflexivity|]. rewrite clip_expand_node. apply IH. Qed.
+
+  Lemma clip_layer_loop : forall fuel m, Ecost m ->
+    layer_loop st_eqb inp' fuel m = layer_loop st_eqb inp fuel m.
+  Proof.
+    induction fuel as [|fuel IH]; intros m HE; [reflexivity|].
+    rewrite !layer_loop_iter. cbv zeta.
+    change (ci_problem inp') with pb. change (ci_cutoff inp') with (ci_cutoff inp).
+    change (fun id => n_state (get_node inp' m id)) with (fun id => n_state (get_node inp m id)).
+    set (states := map (fun id => n_state (get_node inp m id)) (m_next m)).
+    destruct (next_variable pb (m_curr_depth m) states) as [var|]; [|reflexivity].
+    set (m1 := with_polls _ _).
+    destruct (fires (ci_cutoff inp) (m_polls m1)); [reflexivity|].
+    unfold loop_body. change (ci_flavour inp') with (ci_flavour inp).
+    assert (Hnp : is_pooled (ci_flavour inp) = false) by (destruct Hclean as [E|E]; rewrite E; reflexivity).
+    rewrite Hnp.
+    assert (HE1 : Ecost m1) by exact HE.
+    destruct (clip_move m1 HE1) as [E1 E2]. rewrite E1.
+    destruct (move_to_next_layer_clean st_eqb inp m1) as [m2 [l|]]; [|reflexivity].
+    cbn [fst] in E2. rewrite clip_fold_expand. apply IH.
+    assert (HE3 : Ecost (fold_left (expand_node st_eqb inp var) l m2)).
+    { apply Ecost_fold; [|exact E2]. intros a x Ha. apply Ecost_expand_node. exact Ha. }
+    exact HE3.
+  Qed.
+
+  Theorem clip_compile tb tb2 c ds polls :
+    compile st_eqb inp' tb tb2 c ds polls = compile st_eqb inp tb tb2 c ds polls.
+  Proof.
+    unfold compile. change (ci_problem inp') with pb. rewrite clip_initialize.
+    rewrite clip_layer_loop by (unfold Ecost; simpl; constructor).
+    destruct (layer_loop st_eqb inp (S (S (nb_vars pb))) (initialize inp c ds polls)) as [ml e].
+    destruct e; [|reflexivity|reflexivity]. rewrite clip_finalize. reflexivity.
+  Qed.
+End RelaxClip.
+
 (* ================================================================== 2. the abstract semantics, on the model only
    [sgood]: a sub-problem is reached from the initial state by a feasible run (variables in the static order,
    values in the domains, exact integer accumulation) whose decisions are (a permutation of) its path.
@@ -218,6 +493,226 @@ Section Sem.
   Qed.
 End Sem.
 
+(* ================================================================== 3a. a compilation that completes under a cutoff is the compilation without cutoff *)
+Section ToZero.
+  Context {St : Type}.
+  Variable st_eqb : St -> St -> bool.
+  Variable cfg : @sconfig St.
+
+  Lemma to_zero ct n lb c ds polls m :
+    compile st_eqb (mk_input cfg ct n lb) 0 0 c ds polls = (m, Compiled) ->
+    compile st_eqb (mk_input (with_cutoff cfg 0) ct n lb) 0 0 c ds polls = (m, Compiled).
+  Proof.
+    intros H.
+    change (mk_input cfg ct n lb) with (set_cutoff (mk_input cfg ct n lb) (sc_cutoff cfg)) in H.
+    destruct (compile_agree st_eqb _ _ _ _ _ _ _ _ _ H) as (B0 & _ & HB2); [discriminate|].
+    exact (HB2 0%nat (or_introl eq_refl)).
+  Qed.
+End ToZero.
+
+(* ================================================================== 3b. the simulation contracts (K2, K3_ub, K4 of MddSim.v), any cutoff.
+   (Strong) under the hypotheses of MddSim.v as they stand.  NOTE: relax_ge there quantifies over EVERY integer cost c, so it
+   cannot be met by a relaxation whose [relax] returns a machine integer (c > IMAX has no isize above it).
+   (Sat) under hypotheses that such relaxations do meet (relax_ge for isize costs only; costs and relaxed costs are isize),
+   by compiling with the clipped relaxation of section 1c, which compiles to the very same diagram. *)
+Section SimContracts.
+  Context {St : Type}.
+  Variable st_eqb : St -> St -> bool.
+  Hypothesis st_eqb_spec : forall a b, st_eqb a b = true <-> a = b.
+  Variable cfg : @sconfig St.
+  Local Notation pb := (sc_problem cfg).
+  Local Notation rlx := (sc_relax cfg).
+  Local Notation N := (nb_vars (sc_problem cfg)).
+  Hypothesis cfg_clean : sc_flavour cfg = CleanLEL \/ sc_flavour cfg = CleanFC.
+  Hypothesis cfg_nocache : sc_use_cache cfg = false.
+  Hypothesis cfg_nodom : sc_domrule cfg = None.
+  Hypothesis cfg_width : (1 <= sc_width cfg)%nat.
+  Hypothesis nv_static : forall k l1 l2, next_variable pb k l1 = next_variable pb k l2.
+  Hypothesis nv_some : forall k l, (k < N)%nat -> exists x, next_variable pb k l = Some x.
+  Hypothesis nv_none : forall k l, (N <= k)%nat -> next_variable pb k l = None.
+  Variable cov : St -> St -> Prop.
+  Hypothesis cov_refl : forall s, cov s s.
+  Hypothesis cov_sim : forall s s' x v, cov s s' -> In v (domain pb x s') ->
+    let d := {| d_var := x; d_val := v |} in
+    In v (domain pb x s) /\ cov (transition pb s d) (transition pb s' d) /\
+    (transition_cost pb s' (transition pb s' d) d <= transition_cost pb s (transition pb s d) d)%Z.
+  Hypothesis merge_cov : forall L s s', In s L -> cov s s' -> cov (merge rlx L) s'.
+  Hypothesis rub_adm : forall k s s' h, cov s s' -> H pb k s' = Some h -> (h <= fast_upper_bound rlx s)%Z.
+  Variable B : Z.
+  Hypothesis HB : 2 * B <= IMAX.
+  Hypothesis guard0 : forall ds s' v', frun pb 0 (init_state pb) (init_value pb) ds = Some (s', v') -> - B <= v' <= B.
+
+  Local Notation cfg0 := (with_cutoff cfg 0).
+  Local Notation good := (sgood pb).
+  Local Notation bst := (MddSim.best cfg).
+
+  Lemma good_guard n : good n -> forall ds s' v',
+    frun pb (sp_depth n) (sp_state n) (sp_value n) ds = Some (s', v') -> - B <= v' <= B.
+  Proof. apply sgood_guard. exact guard0. Qed.
+
+  Section Strong.
+  Hypothesis relax_ge : forall src dst mg d c, (c <= relax rlx src dst mg d c)%Z.
+
+  Lemma C2_strong ct n lb c ds polls m :
+    dd_ct ct -> good n -> (sp_depth n <= N)%nat ->
+    compile st_eqb (mk_input cfg ct n lb) 0 0 c ds polls = (m, Compiled) ->
+    dd_is_exact m = true ->
+    forall o, bst n = Some o -> o > lb -> dd_best_exact_value (mk_input cfg ct n lb) m = Some o.
+  Proof.
+    intros Hct Hg Hd Hc Hex o Hb Hlb. pose proof (to_zero st_eqb cfg _ _ _ _ _ _ _ Hc) as H0.
+    exact (MddSim.K2_holds st_eqb st_eqb_spec cfg0 cfg_clean cfg_nocache cfg_nodom eq_refl cfg_width
+             nv_static nv_some nv_none cov cov_refl cov_sim merge_cov relax_ge rub_adm good B HB good_guard
+             ct n lb c ds polls m Compiled Hct Hg Hd H0 eq_refl Hex o Hb Hlb).
+  Qed.
+
+  Lemma C3_ub_strong n lb c ds polls m :
+    good n -> (sp_depth n <= N)%nat ->
+    compile st_eqb (mk_input cfg Relaxed n lb) 0 0 c ds polls = (m, Compiled) ->
+    dd_is_exact m = false ->
+    forall x, In x (drain_cutset (mk_input cfg Relaxed n lb) m) ->
+    forall o, bst x = Some o -> o > lb -> o <= sp_ub x.
+  Proof.
+    intros Hg Hd Hc Hex x Hx o Hb Hlb. pose proof (to_zero st_eqb cfg _ _ _ _ _ _ _ Hc) as H0.
+    exact (MddSim.K3_ub_holds st_eqb st_eqb_spec cfg0 cfg_clean cfg_nocache cfg_nodom eq_refl cfg_width
+             nv_static nv_some nv_none cov cov_refl cov_sim merge_cov relax_ge rub_adm good B HB good_guard
+             n lb c ds polls m Compiled Hg Hd H0 eq_refl Hex x Hx o Hb Hlb).
+  Qed.
+
+  Lemma C4_strong n lb c ds polls m :
+    good n -> (sp_depth n <= N)%nat ->
+    compile st_eqb (mk_input cfg Relaxed n lb) 0 0 c ds polls = (m, Compiled) ->
+    dd_is_exact m = false ->
+    forall o, bst n = Some o -> o > lb ->
+    (forall e, dd_best_exact_value (mk_input cfg Relaxed n lb) m = Some e -> e < o) ->
+    exists x, In x (drain_cutset (mk_input cfg Relaxed n lb) m) /\ bst x = Some o.
+  Proof.
+    intros Hg Hd Hc Hex o Hb Hlb He. pose proof (to_zero st_eqb cfg _ _ _ _ _ _ _ Hc) as H0.
+    exact (MddSim.K4_holds st_eqb st_eqb_spec cfg0 cfg_clean cfg_nocache cfg_nodom eq_refl cfg_width
+             nv_static nv_some nv_none cov cov_refl cov_sim merge_cov relax_ge rub_adm good B HB good_guard
+             n lb c ds polls m Compiled Hg Hd H0 eq_refl Hex o Hb Hlb He).
+  Qed.
+  End Strong.
+End SimContracts.
+
+Section SimContractsSat.
+  Context {St : Type}.
+  Variable st_eqb : St -> St -> bool.
+  Hypothesis st_eqb_spec : forall a b, st_eqb a b = true <-> a = b.
+  Variable cfg : @sconfig St.
+  Local Notation pb := (sc_problem cfg).
+  Local Notation rlx := (sc_relax cfg).
+  Local Notation N := (nb_vars (sc_problem cfg)).
+  Hypothesis cfg_clean : sc_flavour cfg = CleanLEL \/ sc_flavour cfg = CleanFC.
+  Hypothesis cfg_nocache : sc_use_cache cfg = false.
+  Hypothesis cfg_nodom : sc_domrule cfg = None.
+  Hypothesis cfg_width : (1 <= sc_width cfg)%nat.
+  Hypothesis nv_static : forall k l1 l2, next_variable pb k l1 = next_variable pb k l2.
+  Hypothesis nv_some : forall k l, (k < N)%nat -> exists x, next_variable pb k l = Some x.
+  Hypothesis nv_none : forall k l, (N <= k)%nat -> next_variable pb k l = None.
+  Variable cov : St -> St -> Prop.
+  Hypothesis cov_refl : forall s, cov s s.
+  Hypothesis cov_sim : forall s s' x v, cov s s' -> In v (domain pb x s') ->
+    let d := {| d_var := x; d_val := v |} in
+    In v (domain pb x s) /\ cov (transition pb s d) (transition pb s' d) /\
+    (transition_cost pb s' (transition pb s' d) d <= transition_cost pb s (transition pb s d) d)%Z.
+  Hypothesis merge_cov : forall L s s', In s L -> cov s s' -> cov (merge rlx L) s'.
+  Hypothesis rub_adm : forall k s s' h, cov s s' -> H pb k s' = Some h -> (h <= fast_upper_bound rlx s)%Z.
+  (* machine-integer costs *)
+  Hypothesis cost_isize : forall s d, in_isize (transition_cost pb s (transition pb s d) d).
+  Hypothesis relax_isize : forall src dst mg d c, in_isize c -> in_isize (relax rlx src dst mg d c).
+  Hypothesis relax_ge_isize : forall src dst mg d c, in_isize c -> (c <= relax rlx src dst mg d c)%Z.
+  Variable B : Z.
+  Hypothesis HB : 2 * B <= IMAX.
+  Hypothesis guard0 : forall ds s' v', frun pb 0 (init_state pb) (init_value pb) ds = Some (s', v') -> - B <= v' <= B.
+
+  Local Notation good := (sgood pb).
+  Local Notation bst := (MddSim.best cfg).
+
+  Definition clip_cfg : @sconfig St :=
+    {| sc_flavour := sc_flavour cfg; sc_problem := sc_problem cfg; sc_relax := clip_relaxation (sc_relax cfg);
+       sc_ranking := sc_ranking cfg; sc_domcmp := sc_domcmp cfg; sc_domrule := sc_domrule cfg; sc_width := sc_width cfg;
+       sc_use_cache := sc_use_cache cfg; sc_nodup := sc_nodup cfg; sc_cutoff := sc_cutoff cfg |}.
+
+  Lemma clip_relax_ge : forall src dst mg d c, (c <= relax (sc_relax clip_cfg) src dst mg d c)%Z.
+  Proof.
+    intros src dst mg d c. cbn [clip_cfg sc_relax clip_relaxation relax].
+    destruct (in_isize_b c) eqn:E; [|lia].
+    apply relax_ge_isize. unfold in_isize_b in E. apply andb_true_iff in E. destruct E as [E1 E2].
+    apply Z.leb_le in E1. apply Z.leb_le in E2. split; assumption.
+  Qed.
+
+  Lemma clip_compile_cfg ct n lb c ds polls :
+    compile st_eqb (mk_input clip_cfg ct n lb) 0 0 c ds polls = compile st_eqb (mk_input cfg ct n lb) 0 0 c ds polls.
+  Proof. exact (clip_compile st_eqb (mk_input cfg ct n lb) cfg_clean cost_isize relax_isize 0 0 c ds polls). Qed.
+
+  Lemma C2_sat ct n lb c ds polls m :
+    dd_ct ct -> good n -> (sp_depth n <= N)%nat ->
+    compile st_eqb (mk_input cfg ct n lb) 0 0 c ds polls = (m, Compiled) ->
+    dd_is_exact m = true ->
+    forall o, bst n = Some o -> o > lb -> dd_best_exact_value (mk_input cfg ct n lb) m = Some o.
+  Proof.
+    intros Hct Hg Hd Hc Hex o Hb Hlb. rewrite <- clip_compile_cfg in Hc.
+    exact (C2_strong st_eqb st_eqb_spec clip_cfg cfg_clean cfg_nocache cfg_nodom cfg_width nv_static nv_some nv_none
+             cov cov_refl cov_sim merge_cov rub_adm B HB guard0 clip_relax_ge ct n lb c ds polls m Hct Hg Hd Hc Hex o Hb Hlb).
+  Qed.
+
+  Lemma C3_ub_sat n lb c ds polls m :
+    good n -> (sp_depth n <= N)%nat ->
+    compile st_eqb (mk_input cfg Relaxed n lb) 0 0 c ds polls = (m, Compiled) ->
+    dd_is_exact m = false ->
+    forall x, In x (drain_cutset (mk_input cfg Relaxed n lb) m) ->
+    forall o, bst x = Some o -> o > lb -> o <= sp_ub x.
+  Proof.
+    intros Hg Hd Hc Hex x Hx o Hb Hlb. rewrite <- clip_compile_cfg in Hc.
+    exact (C3_ub_strong st_eqb st_eqb_spec clip_cfg cfg_clean cfg_nocache cfg_nodom cfg_width nv_static nv_some nv_none
+             cov cov_refl cov_sim merge_cov rub_adm B HB guard0 clip_relax_ge n lb c ds polls m Hg Hd Hc Hex x Hx o Hb Hlb).
+  Qed.
+
+  Lemma C4_sat n lb c ds polls m :
+    good n -> (sp_depth n <= N)%nat ->
+    compile st_eqb (mk_input cfg Relaxed n lb) 0 0 c ds polls = (m, Compiled) ->
+    dd_is_exact m = false ->
+    forall o, bst n = Some o -> o > lb ->
+    (forall e, dd_best_exact_value (mk_input cfg Relaxed n lb) m = Some e -> e < o) ->
+    exists x, In x (drain_cutset (mk_input cfg Relaxed n lb) m) /\ bst x = Some o.
+  Proof.
+    intros Hg Hd Hc Hex o Hb Hlb He. rewrite <- clip_compile_cfg in Hc.
+    exact (C4_strong st_eqb st_eqb_spec clip_cfg cfg_clean cfg_nocache cfg_nodom cfg_width nv_static nv_some nv_none
+             cov cov_refl cov_sim merge_cov rub_adm B HB guard0 clip_relax_ge n lb c ds polls m Hg Hd Hc Hex o Hb Hlb He).
+  Qed.
+End SimContractsSat.
+
+(* ================================================================== 3c. a well-formed relaxation, in either sense *)
+Section WfRelaxation.
+  Context {St : Type}.
+  Variable cfg : @sconfig St.
+  Local Notation pb := (sc_problem cfg).
+  Local Notation rlx := (sc_relax cfg).
+
+  (* common part: [cov s s'] = the (possibly merged) state s covers the true state s' *)
+  Definition wf_cover (cov : St -> St -> Prop) : Prop :=
+    (forall s, cov s s) /\
+    (forall s s' x v, cov s s' -> In v (domain pb x s') ->
+       let d := {| d_var := x; d_val := v |} in
+       In v (domain pb x s) /\ cov (transition pb s d) (transition pb s' d) /\
+       (transition_cost pb s' (transition pb s' d) d <= transition_cost pb s (transition pb s d) d)%Z) /\
+    (forall L s s', In s L -> cov s s' -> cov (merge rlx L) s') /\
+    (forall k s s' h, cov s s' -> H pb k s' = Some h -> (h <= fast_upper_bound rlx s)%Z).
+
+  (* the hypotheses of MddSim.v, section KHolds, as they stand *)
+  Definition wf_relaxation_strong (cov : St -> St -> Prop) : Prop :=
+    wf_cover cov /\ (forall src dst mg d c, (c <= relax rlx src dst mg d c)%Z).
+
+  (* the machine-integer variant: costs and relaxed costs are isize, relax does not decrease an isize cost *)
+  Definition wf_relaxation_isize (cov : St -> St -> Prop) : Prop :=
+    wf_cover cov /\
+    (forall s d, in_isize (transition_cost pb s (transition pb s d) d)) /\
+    (forall src dst mg d c, in_isize c -> in_isize (relax rlx src dst mg d c)) /\
+    (forall src dst mg d c, in_isize c -> (c <= relax rlx src dst mg d c)%Z).
+
+  Definition wf_relaxation : Prop := exists cov, wf_relaxation_strong cov \/ wf_relaxation_isize cov.
+End WfRelaxation.
+
 (* ================================================================== 3. the diagram contracts for Mdd.compile *)
 Section Main.
   Context {St : Type}.
@@ -238,16 +733,8 @@ Section Main.
   Hypothesis nv_static : forall k l1 l2, next_variable pb k l1 = next_variable pb k l2.
   Hypothesis nv_some : forall k l, (k < N)%nat -> exists x, next_variable pb k l = Some x.
   Hypothesis nv_none : forall k l, (N <= k)%nat -> next_variable pb k l = None.
-  (* ---- the user's model: a well-formed relaxation *)
-  Variable cov : St -> St -> Prop.
-  Hypothesis cov_refl : forall s, cov s s.
-  Hypothesis cov_sim : forall s s' x v, cov s s' -> In v (domain pb x s') ->
-    let d := {| d_var := x; d_val := v |} in
-    In v (domain pb x s) /\ cov (transition pb s d) (transition pb s' d) /\
-    (transition_cost pb s' (transition pb s' d) d <= transition_cost pb s (transition pb s d) d)%Z.
-  Hypothesis merge_cov : forall L s s', In s L -> cov s s' -> cov (merge rlx L) s'.
-  Hypothesis relax_ge : forall src dst mg d c, (c <= relax rlx src dst mg d c)%Z.
-  Hypothesis rub_adm : forall k s s' h, cov s s' -> H pb k s' = Some h -> (h <= fast_upper_bound rlx s)%Z.
+  (* ---- the user's model: a well-formed relaxation (section 3c) *)
+  Hypothesis Hwf : wf_relaxation cfg.
   (* ---- the user's model: finite domains, bounded objective *)
   Variable D : nat.
   Hypothesis dom_bound : forall x s, (length (domain pb x s) <= D)%nat.
@@ -266,18 +753,7 @@ Section Main.
   Lemma cfg_c : config_c cfg.
   Proof. repeat split; assumption. Qed.
 
-  (* a compilation that completes under the configured cutoff is the compilation without cutoff *)
-  Lemma to_zero ct n lb c ds polls m :
-    compile st_eqb (mk_input cfg ct n lb) 0 0 c ds polls = (m, Compiled) ->
-    compile st_eqb (mk_input cfg0 ct n lb) 0 0 c ds polls = (m, Compiled).
-  Proof.
-    intros H.
-    change (mk_input cfg ct n lb) with (set_cutoff (mk_input cfg ct n lb) (sc_cutoff cfg)) in H.
-    destruct (compile_agree st_eqb _ _ _ _ _ _ _ _ _ H) as (B0 & _ & HB2); [discriminate|].
-    exact (HB2 0%nat (or_introl eq_refl)).
-  Qed.
-
-  Lemma good_guard n : good n -> forall ds s' v',
+  Lemma gguard n : good n -> forall ds s' v',
     frun pb (sp_depth n) (sp_state n) (sp_value n) ds = Some (s', v') -> - B <= v' <= B.
   Proof. apply sgood_guard. exact guard0. Qed.
 
@@ -291,13 +767,13 @@ Section Main.
     forall v, dd_best_exact_value (mk_input cfg ct n lb) m = Some v ->
     exists sol, dd_best_exact_solution (mk_input cfg ct n lb) m = Some sol /\ feas sol v.
   Proof.
-    intros Hg Hd Hc v Hv. pose proof (to_zero _ _ _ _ _ _ _ Hc) as H0.
+    intros Hg Hd Hc v Hv. pose proof (to_zero st_eqb cfg _ _ _ _ _ _ _ Hc) as H0.
     destruct cfg0_ok as (O1 & O2 & O3 & _).
     unfold dd_best_exact_value in Hv. unfold dd_best_exact_solution.
     destruct (m_best_exact m) as [b|] eqn:Eb; [|discriminate]. simpl in Hv. inversion Hv; subst v. simpl.
     destruct (best_exact_solution_genuine st_eqb st_eqb_spec (mk_input cfg ct n lb) cfg_clean 0 0 c ds polls m b Hc Eb)
       as (Hlt & Hcc & _ & Hpath & Hlen).
-    pose proof (clean_chain_frun st_eqb st_eqb_spec (mk_input cfg ct n lb) cfg_clean nv_static B HB (good_guard n Hg)
+    pose proof (clean_chain_frun st_eqb st_eqb_spec (mk_input cfg ct n lb) cfg_clean nv_static B HB (gguard n Hg)
                   0 0 c ds polls m b Hc Hcc Hlt) as Hrun.
     pose proof (compile_best_depth st_eqb st_eqb_spec (mk_input cfg0 ct n lb) cfg_clean O1 O2 O3 cfg_width
                   nv_some nv_none Hd 0 0 c ds polls m Compiled b H0 (or_intror Eb)) as HdN.
@@ -317,7 +793,7 @@ Section Main.
     compile st_eqb (mk_input cfg Relaxed n lb) 0 0 c ds polls = (m, Compiled) ->
     forall x, In x (drain_cutset (mk_input cfg Relaxed n lb) m) -> (sp_depth n < sp_depth x <= N)%nat.
   Proof.
-    intros Hd Hc x Hx. pose proof (to_zero _ _ _ _ _ _ _ Hc) as H0.
+    intros Hd Hc x Hx. pose proof (to_zero st_eqb cfg _ _ _ _ _ _ _ Hc) as H0.
     destruct cfg0_ok as (O1 & O2 & O3 & _).
     exact (cutset_depth st_eqb st_eqb_spec (mk_input cfg0 Relaxed n lb) cfg_clean O1 O2 O3 cfg_width
              nv_some nv_none Hd 0 0 c ds polls m Compiled x eq_refl H0 Hx).
@@ -332,7 +808,7 @@ Section Main.
     destruct (C3_depth n lb c ds polls m Hd Hc x Hx) as [_ HxN].
     destruct (cutset_nodes_exact st_eqb st_eqb_spec (mk_input cfg Relaxed n lb) cfg_clean 0 0 c ds polls m x Hc Hx)
       as (id & _ & Hlt & _ & Hcc & Hpath & Hst & Hval & _ & _ & Hlen).
-    pose proof (clean_chain_frun st_eqb st_eqb_spec (mk_input cfg Relaxed n lb) cfg_clean nv_static B HB (good_guard n Hg)
+    pose proof (clean_chain_frun st_eqb st_eqb_spec (mk_input cfg Relaxed n lb) cfg_clean nv_static B HB (gguard n Hg)
                   0 0 c ds polls m id Hc Hcc Hlt) as Hrun.
     destruct Hg as (_ & ds0 & G1 & G2 & G3).
     split; [exact HxN|].
@@ -342,17 +818,18 @@ Section Main.
     - rewrite frun_app, G3, G1, Hst, Hval. exact Hrun.
   Qed.
 
-  (* ---- KC2 / KC3_ub / KC4: the simulation contracts of MddSim.v *)
+  (* ---- KC2 / KC3_ub / KC4: the simulation contracts of MddSim.v (section 3b) *)
   Lemma C2 ct n lb c ds polls m :
     dd_ct ct -> good n -> (sp_depth n <= N)%nat ->
     compile st_eqb (mk_input cfg ct n lb) 0 0 c ds polls = (m, Compiled) ->
     dd_is_exact m = true ->
     forall o, bst n = Some o -> o > lb -> dd_best_exact_value (mk_input cfg ct n lb) m = Some o.
   Proof.
-    intros Hct Hg Hd Hc Hex o Hb Hlb. pose proof (to_zero _ _ _ _ _ _ _ Hc) as H0.
-    exact (MddSim.K2_holds st_eqb st_eqb_spec cfg0 cfg_clean cfg_nocache cfg_nodom eq_refl cfg_width
-             nv_static nv_some nv_none cov cov_refl cov_sim merge_cov relax_ge rub_adm good B HB good_guard
-             ct n lb c ds polls m Compiled Hct Hg Hd H0 eq_refl Hex o Hb Hlb).
+    destruct Hwf as (cov & [((W1 & W2 & W3 & W4) & W5) | ((W1 & W2 & W3 & W4) & W5 & W6 & W7)]).
+    - exact (C2_strong st_eqb st_eqb_spec cfg cfg_clean cfg_nocache cfg_nodom cfg_width nv_static nv_some nv_none
+               cov W1 W2 W3 W4 B HB guard0 W5 ct n lb c ds polls m).
+    - exact (C2_sat st_eqb st_eqb_spec cfg cfg_clean cfg_nocache cfg_nodom cfg_width nv_static nv_some nv_none
+               cov W1 W2 W3 W4 W5 W6 W7 B HB guard0 ct n lb c ds polls m).
   Qed.
 
   Lemma C3_ub n lb c ds polls m :
@@ -362,10 +839,11 @@ Section Main.
     forall x, In x (drain_cutset (mk_input cfg Relaxed n lb) m) ->
     forall o, bst x = Some o -> o > lb -> o <= sp_ub x.
   Proof.
-    intros Hg Hd Hc Hex x Hx o Hb Hlb. pose proof (to_zero _ _ _ _ _ _ _ Hc) as H0.
-    exact (MddSim.K3_ub_holds st_eqb st_eqb_spec cfg0 cfg_clean cfg_nocache cfg_nodom eq_refl cfg_width
-             nv_static nv_some nv_none cov cov_refl cov_sim merge_cov relax_ge rub_adm good B HB good_guard
-             n lb c ds polls m Compiled Hg Hd H0 eq_refl Hex x Hx o Hb Hlb).
+    destruct Hwf as (cov & [((W1 & W2 & W3 & W4) & W5) | ((W1 & W2 & W3 & W4) & W5 & W6 & W7)]).
+    - exact (C3_ub_strong st_eqb st_eqb_spec cfg cfg_clean cfg_nocache cfg_nodom cfg_width nv_static nv_some nv_none
+               cov W1 W2 W3 W4 B HB guard0 W5 n lb c ds polls m).
+    - exact (C3_ub_sat st_eqb st_eqb_spec cfg cfg_clean cfg_nocache cfg_nodom cfg_width nv_static nv_some nv_none
+               cov W1 W2 W3 W4 W5 W6 W7 B HB guard0 n lb c ds polls m).
   Qed.
 
   Lemma C4 n lb c ds polls m :
@@ -376,10 +854,11 @@ Section Main.
     (forall e, dd_best_exact_value (mk_input cfg Relaxed n lb) m = Some e -> e < o) ->
     exists x, In x (drain_cutset (mk_input cfg Relaxed n lb) m) /\ bst x = Some o.
   Proof.
-    intros Hg Hd Hc Hex o Hb Hlb He. pose proof (to_zero _ _ _ _ _ _ _ Hc) as H0.
-    exact (MddSim.K4_holds st_eqb st_eqb_spec cfg0 cfg_clean cfg_nocache cfg_nodom eq_refl cfg_width
-             nv_static nv_some nv_none cov cov_refl cov_sim merge_cov relax_ge rub_adm good B HB good_guard
-             n lb c ds polls m Compiled Hg Hd H0 eq_refl Hex o Hb Hlb He).
+    destruct Hwf as (cov & [((W1 & W2 & W3 & W4) & W5) | ((W1 & W2 & W3 & W4) & W5 & W6 & W7)]).
+    - exact (C4_strong st_eqb st_eqb_spec cfg cfg_clean cfg_nocache cfg_nodom cfg_width nv_static nv_some nv_none
+               cov W1 W2 W3 W4 B HB guard0 W5 n lb c ds polls m).
+    - exact (C4_sat st_eqb st_eqb_spec cfg cfg_clean cfg_nocache cfg_nodom cfg_width nv_static nv_some nv_none
+               cov W1 W2 W3 W4 W5 W6 W7 B HB guard0 n lb c ds polls m).
   Qed.
 
   (* ---- K5: size of the cut-set *)
@@ -388,7 +867,7 @@ Section Main.
     compile st_eqb (mk_input cfg Relaxed n lb) 0 0 c ds polls = (m, Compiled) ->
     (length (drain_cutset (mk_input cfg Relaxed n lb) m) <= Kbound cfg D)%nat.
   Proof.
-    intros Hd Hc. pose proof (to_zero _ _ _ _ _ _ _ Hc) as H0.
+    intros Hd Hc. pose proof (to_zero st_eqb cfg _ _ _ _ _ _ _ Hc) as H0.
     destruct cfg0_ok as (O1 & O2 & O3 & _).
     exact (cutset_size_bound st_eqb st_eqb_spec (mk_input cfg0 Relaxed n lb) cfg_clean O1 O2 O3 cfg_width
              nv_some nv_none Hd D dom_bound 0 0 c ds polls m Compiled eq_refl H0).
@@ -402,7 +881,7 @@ Section Main.
     intros Hd Hc. destruct cfg0_ok as (O1 & O2 & O3 & _).
     assert (Hcases : out = Compiled \/ out <> Compiled) by (destruct out; [left; reflexivity|right; discriminate..]).
     destruct Hcases as [-> | Hne].
-    - pose proof (to_zero _ _ _ _ _ _ _ Hc) as H0.
+    - pose proof (to_zero st_eqb cfg _ _ _ _ _ _ _ Hc) as H0.
       exact (proj2 (compile_completes st_eqb st_eqb_spec (mk_input cfg0 ct n lb) cfg_clean O1 O2 O3 cfg_width
                       nv_some nv_none Hd 0 0 c ds polls m Compiled H0)).
     - change (mk_input cfg ct n lb) with (set_cutoff (mk_input cfg ct n lb) (sc_cutoff cfg)) in Hc.
@@ -763,15 +1242,7 @@ Section Cutoffs.
   Hypothesis nv_static : forall k l1 l2, next_variable pb k l1 = next_variable pb k l2.
   Hypothesis nv_some : forall k l, (k < N)%nat -> exists x, next_variable pb k l = Some x.
   Hypothesis nv_none : forall k l, (N <= k)%nat -> next_variable pb k l = None.
-  Variable cov : St -> St -> Prop.
-  Hypothesis cov_refl : forall s, cov s s.
-  Hypothesis cov_sim : forall s s' x v, cov s s' -> In v (domain pb x s') ->
-    let d := {| d_var := x; d_val := v |} in
-    In v (domain pb x s) /\ cov (transition pb s d) (transition pb s' d) /\
-    (transition_cost pb s' (transition pb s' d) d <= transition_cost pb s (transition pb s d) d)%Z.
-  Hypothesis merge_cov : forall L s s', In s L -> cov s s' -> cov (merge rlx L) s'.
-  Hypothesis relax_ge : forall src dst mg d c, (c <= relax rlx src dst mg d c)%Z.
-  Hypothesis rub_adm : forall k s s' h, cov s s' -> H pb k s' = Some h -> (h <= fast_upper_bound rlx s)%Z.
+  Hypothesis Hwf : wf_relaxation cfg.
   Variable B : Z.
   Hypothesis HB : 2 * B <= IMAX.
   Hypothesis guard0 : forall ds s' v', frun pb 0 (init_state pb) (init_value pb) ds = Some (s', v') -> - B <= v' <= B.
@@ -779,7 +1250,7 @@ Section Cutoffs.
   Lemma contracts_all k : contracts st_eqb (sgood pb) (MddSim.best cfg) (sfeasible pb) (with_cutoff cfg k).
   Proof.
     exact (contracts_hold st_eqb st_eqb_spec (with_cutoff cfg k) cfg_clean cfg_nocache cfg_nodom cfg_nodup cfg_width
-             nv_static nv_some nv_none cov cov_refl cov_sim merge_cov relax_ge rub_adm B HB guard0).
+             nv_static nv_some nv_none Hwf B HB guard0).
   Qed.
 
   Let sem : semantics (sgood pb) (MddSim.best cfg) (sfeasible pb) cfg :=
@@ -812,6 +1283,130 @@ Section Cutoffs.
   Proof. intros fuel primal. exact (cutoff_eventually_full st_eqb cfg cc fuel primal). Qed.
 End Cutoffs.
 
+(* ================================================================== 9. T1 with every premise spelled out
+   (a) the hypotheses of MddSim.v exactly as stated there; (b) the machine-integer variant *)
+Section Explicit.
+  Context {St : Type}.
+  Variable st_eqb : St -> St -> bool.
+  Hypothesis st_eqb_spec : forall a b, st_eqb a b = true <-> a = b.
+  Variable cfg : @sconfig St.
+  Local Notation pb := (sc_problem cfg).
+  Local Notation rlx := (sc_relax cfg).
+  Local Notation N := (nb_vars (sc_problem cfg)).
+  Hypothesis cfg_clean : sc_flavour cfg = CleanLEL \/ sc_flavour cfg = CleanFC.
+  Hypothesis cfg_nocache : sc_use_cache cfg = false.
+  Hypothesis cfg_nodom : sc_domrule cfg = None.
+  Hypothesis cfg_nodup : sc_nodup cfg = false.
+  Hypothesis cfg_width : (1 <= sc_width cfg)%nat.
+  Hypothesis cfg_nocut : sc_cutoff cfg = 0%nat.
+  Hypothesis nv_static : forall k l1 l2, next_variable pb k l1 = next_variable pb k l2.
+  Hypothesis nv_some : forall k l, (k < N)%nat -> exists x, next_variable pb k l = Some x.
+  Hypothesis nv_none : forall k l, (N <= k)%nat -> next_variable pb k l = None.
+  Variable cov : St -> St -> Prop.
+  Hypothesis cov_refl : forall s, cov s s.
+  Hypothesis cov_sim : forall s s' x v, cov s s' -> In v (domain pb x s') ->
+    let d := {| d_var := x; d_val := v |} in
+    In v (domain pb x s) /\ cov (transition pb s d) (transition pb s' d) /\
+    (transition_cost pb s' (transition pb s' d) d <= transition_cost pb s (transition pb s d) d)%Z.
+  Hypothesis merge_cov : forall L s s', In s L -> cov s s' -> cov (merge rlx L) s'.
+  Hypothesis rub_adm : forall k s s' h, cov s s' -> H pb k s' = Some h -> (h <= fast_upper_bound rlx s)%Z.
+  Variable D : nat.
+  Hypothesis dom_bound : forall x s, (length (domain pb x s) <= D)%nat.
+  Variable B : Z.
+  Hypothesis HB : 2 * B <= IMAX.
+  Hypothesis guard0 : forall ds s' v', frun pb 0 (init_state pb) (init_value pb) ds = Some (s', v') -> - B <= v' <= B.
+
+  Lemma wf_cover_intro : wf_cover cfg cov.
+  Proof. split; [exact cov_refl|]. split; [exact cov_sim|]. split; [exact merge_cov|exact rub_adm]. Qed.
+
+  Theorem C01_sequential_optimal_explicit :
+    (forall src dst mg d c, (c <= relax rlx src dst mg d c)%Z) ->
+    exists f0, forall fuel, (f0 <= fuel)%nat ->
+      let r := maximize st_eqb cfg fuel None in
+      r_crash r = false /\ r_outoffuel r = false /\ r_exact r = true /\ r_value r = opt_enum pb /\
+      (forall v, opt_enum pb = Some v ->
+         r_lb r = v /\ r_ub r = v /\
+         exists sol, r_sol r = Some (sort_by dec_var_cmp sol) /\ MddProgress.feasible pb sol v) /\
+      (opt_enum pb = None -> r_sol r = None /\ r_lb r = IMIN).
+  Proof.
+    intros relax_ge.
+    apply (C01_sequential_optimal st_eqb st_eqb_spec cfg cfg_clean cfg_nocache cfg_nodom cfg_nodup cfg_width
+             nv_static nv_some nv_none) with (D := D) (B := B); try assumption.
+    exists cov. left. split; [exact wf_cover_intro|exact relax_ge].
+  Qed.
+
+  Theorem C01_sequential_optimal_isize :
+    (forall s d, in_isize (transition_cost pb s (transition pb s d) d)) ->
+    (forall src dst mg d c, in_isize c -> in_isize (relax rlx src dst mg d c)) ->
+    (forall src dst mg d c, in_isize c -> (c <= relax rlx src dst mg d c)%Z) ->
+    exists f0, forall fuel, (f0 <= fuel)%nat ->
+      let r := maximize st_eqb cfg fuel None in
+      r_crash r = false /\ r_outoffuel r = false /\ r_exact r = true /\ r_value r = opt_enum pb /\
+      (forall v, opt_enum pb = Some v ->
+         r_lb r = v /\ r_ub r = v /\
+         exists sol, r_sol r = Some (sort_by dec_var_cmp sol) /\ MddProgress.feasible pb sol v) /\
+      (opt_enum pb = None -> r_sol r = None /\ r_lb r = IMIN).
+  Proof.
+    intros cost_isize relax_isize relax_ge_isize.
+    apply (C01_sequential_optimal st_eqb st_eqb_spec cfg cfg_clean cfg_nocache cfg_nodom cfg_nodup cfg_width
+             nv_static nv_some nv_none) with (D := D) (B := B); try assumption.
+    exists cov. right. split; [exact wf_cover_intro|]. split; [exact cost_isize|]. split; [exact relax_isize|exact relax_ge_isize].
+  Qed.
+End Explicit.
+
+(* ================================================================== 10. why the theorems are stated with feasible RUNS
+   MddProgress.good / MddProgress.feasible replay a decision sequence through the model WITHOUT looking at the order of
+   the variables.  A guard on the feasible runs (variables in the static order) says nothing of such replays, so
+     "MddProgress.feasible pb sol v -> sol replays through DP.replay to v"       and
+     "MddProgress.feasible pb sol v -> v <= optimum"   (hypothesis feasible_le_opt of SolverProofs.v)
+   are both FALSE in general: in the model below (2 variables, order 0, 1, all costs 0, except a variable 7 that is
+   never branched on and costs IMAX) every feasible run has value 0, yet [7 := 0; 7 := 0] is MddProgress.feasible with
+   the saturated value IMAX, exceeds the optimum 0, and replays exactly to 2 * IMAX.
+   What does hold: sfeasible -> MddProgress.feasible (sfeasible_feasible), sfeasible -> DP.replay (sfeasible_replay),
+   and a MddProgress-style replay whose decisions follow the variable order is a feasible run (replay_sat_frun). *)
+Section OrderMatters.
+  Definition pbX : problem unit := {|
+    nb_vars := 2; init_state := tt; init_value := 0;
+    transition := fun _ _ => tt;
+    transition_cost := fun _ _ d => if Nat.eqb (d_var d) 7 then IMAX else 0;
+    next_variable := fun k _ => if Nat.ltb k 2 then Some k else None;
+    domain := fun _ _ => [0];
+    is_impacted_by := fun _ _ => true |}.
+  Definition d7 : decision := {| d_var := 7; d_val := 0 |}.
+
+  Lemma pbX_runs : forall ds k s v s' v', frun pbX k s v ds = Some (s', v') -> v' = v.
+  Proof.
+    induction ds as [|d ds IH]; intros k s v s' v' H; simpl in H; [inversion H; reflexivity|].
+    destruct (var_ok pbX k d) eqn:Ev; simpl in H; [|discriminate].
+    destruct (in_domain pbX s d); [|discriminate].
+    apply IH in H. subst v'.
+    unfold var_ok in Ev. cbn [next_variable pbX] in Ev.
+    destruct (Nat.ltb_spec k 2) as [Hk|Hk]; [|discriminate]. apply Nat.eqb_eq in Ev.
+    cbn [transition_cost pbX]. rewrite <- Ev.
+    destruct k as [|[|k]]; [simpl; lia|simpl; lia|lia].
+  Qed.
+
+  Lemma pbX_guard : forall ds s' v', frun pbX 0 (init_state pbX) (init_value pbX) ds = Some (s', v') -> - 0 <= v' <= 0.
+  Proof. intros ds s' v' H. apply pbX_runs in H. subst. simpl. lia. Qed.
+
+  Lemma pbX_opt : opt_enum pbX = Some 0.
+  Proof. vm_compute. reflexivity. Qed.
+
+  Lemma pbX_feasible : MddProgress.feasible pbX [d7; d7] IMAX.
+  Proof. exists [d7; d7], tt. split; [reflexivity|]. split; [apply Permutation_refl|]. vm_compute. reflexivity. Qed.
+
+  Lemma pbX_not_le_opt : ~ (exists o, opt_enum pbX = Some o /\ IMAX <= o).
+  Proof. intros (o & Ho & Hle). rewrite pbX_opt in Ho. inversion Ho; subst. unfold IMAX in Hle. lia. Qed.
+
+  Lemma pbX_no_replay :
+    ~ exists ds st, Permutation ds [d7; d7] /\ length ds = nb_vars pbX /\
+                    replay pbX ds (init_state pbX) (init_value pbX) = Some (st, IMAX).
+  Proof.
+    intros (ds & st & HP & _ & HR).
+    apply (Permutation_repeat d7 2) in HP. subst ds. vm_compute in HR. discriminate.
+  Qed.
+End OrderMatters.
+
 (* ------------------------------------------------------------------ assumptions *)
 Print Assumptions C01_sequential_optimal.
 Print Assumptions C01_sequential_optimal_run.
@@ -827,5 +1422,9 @@ Print Assumptions C03_parallel_optimal_finished.
 Print Assumptions C04_parallel_terminates.
 Print Assumptions C04_parallel_no_deadlock_no_crash.
 Print Assumptions C04_parallel_run_no_deadlock.
+Print Assumptions C01_sequential_optimal_explicit.
+Print Assumptions C01_sequential_optimal_isize.
+Print Assumptions clip_compile.
+Print Assumptions pbX_no_replay.
 Print Assumptions contracts_hold.
 Print Assumptions semantics_hold.
